@@ -259,6 +259,61 @@ func c18Scenarios(tier string) []*Scenario {
 		}
 		scs = append(scs, sc)
 	}
+	// a process that is renamed by a scale request (a -> a-0) while it has no running instance keeps its log: range
+	// requests and subscriptions under the new name see the lines it wrote
+	for _, beh := range []string{"completed", "running"} {
+		beh := beh
+		script := []Action{Out("l0\nl1\n")}
+		if beh == "completed" {
+			script = append(script, Exit(0))
+		}
+		sc := &Scenario{ID: "c18-runner-renamed-" + beh, K: 1, TickBudget: 2, EnvCost: 1,
+			YAML:  projectYAML(nil, PC{Name: "a", Restart: "no"}, PC{Name: "x"}),
+			Procs: map[string]*ProcScript{"a": {Launches: [][]Action{script, {}}}, "x": {}}}
+		wrote := func(w *World) bool {
+			if beh == "completed" {
+				return w.lastStat["a"] == "Completed"
+			}
+			for _, f := range w.procs {
+				if f.Name == "a" && f.pc >= len(f.script) && f.stdout != nil && len(f.stdout.buf) == 0 {
+					return true
+				}
+			}
+			return false
+		}
+		sc.API = [][]APICall{{
+			{Op: "fn", Name: "range-before", When: wrote, Fn: func(w *World) (string, error) {
+				l, err := w.Runner.GetProcessLog("a", 10, 0)
+				return strings.Join(l, ","), err
+			}},
+			{Op: "scale", Name: "a", N: 2},
+			{Op: "fn", Name: "range-after", Fn: func(w *World) (string, error) {
+				l, err := w.Runner.GetProcessLog("a-0", 10, 0)
+				return strings.Join(l, ","), err
+			}},
+			{Op: "fn", Name: "subscribe-after", Fn: func(w *World) (string, error) {
+				f := &c18Follower{id: "renamed", tail: 10}
+				err := w.Runner.GetLogsAndSubscribe("a-0", f)
+				return strings.Join(f.snap, ","), err
+			}},
+		}}
+		sc.Check = func(w *World) []Violation {
+			var vs []Violation
+			if len(w.apiRes) < 4 || !w.apiRes[3].Done || w.apiRes[0].Err != nil || w.apiRes[1].Err != nil {
+				return nil
+			}
+			before := w.apiRes[0].Val
+			for _, r := range w.apiRes[2:4] {
+				if r.Err != nil {
+					vs = append(vs, viol("C18", "renamed:"+r.Call.Name+":error", "%s for the renamed process a-0 (%s at the scale request) fails: %v", r.Call.Name, beh, r.Err))
+				} else if !strings.HasPrefix(r.Val, before) {
+					vs = append(vs, viol("C18", "renamed:"+r.Call.Name+":lost", "%s for the renamed process a-0 returns %q, the log held %q before the scale request", r.Call.Name, r.Val, before))
+				}
+			}
+			return vs
+		}
+		scs = append(scs, sc)
+	}
 	if tier == "thorough" {
 		mk("2w-2f", 2, 3, []int{0, 2}, true, 2, 1)
 		mk("2w-1f-k2", 2, 3, []int{2}, true, 1, 2)
